@@ -699,6 +699,24 @@ func (e *Env) evalCall(t *ECall) (Val, error) {
 			c := *e
 			c.inOld = true
 			return Val{T: fmt.Sprintf("(and (not (= %[1]s 0)) (= (refroot %[1]s) %[1]s) (= (refkind %[1]s) 0) (not (select %[2]s %[1]s)) (select %[3]s %[1]s))", ref, c.heap(allocComp), e.heap(allocComp)), Ty: types.Typ[types.Bool]}, nil
+		case "toInt64":
+			v, err := e.Eval(t.Args[0])
+			if err != nil {
+				return Val{}, err
+			}
+			return Val{T: fmt.Sprintf("(wraps %s 9223372036854775808)", v.T), Ty: mathInt}, nil
+		case "toUint32":
+			v, err := e.Eval(t.Args[0])
+			if err != nil {
+				return Val{}, err
+			}
+			return Val{T: fmt.Sprintf("(wrapu %s 4294967296)", v.T), Ty: mathInt}, nil
+		case "toUint64":
+			v, err := e.Eval(t.Args[0])
+			if err != nil {
+				return Val{}, err
+			}
+			return Val{T: fmt.Sprintf("(wrapu %s 18446744073709551616)", v.T), Ty: mathInt}, nil
 		case "pow2":
 			v, err := e.Eval(t.Args[0])
 			if err != nil {
@@ -765,6 +783,13 @@ func (e *Env) evalCall(t *ECall) (Val, error) {
 
 func (e *Env) contentOf(v Val) (Val, error) {
 	u := e.u
+	if at, isArr := v.Ty.Underlying().(*types.Array); isArr {
+		u.declRaw("sort$Content", "(declare-sort Content 0)")
+		es := u.sortOf(at.Elem())
+		fn := q("content$" + shortType(at.Elem()))
+		u.declareFun(fn, []string{"(Array Int " + es + ")", "Int", "Int"}, "Content")
+		return Val{T: fmt.Sprintf("(%s %s 0 %d)", fn, v.T, at.Len()), Ty: contentType}, nil
+	}
 	sl, ok := v.Ty.Underlying().(*types.Slice)
 	if !ok {
 		return Val{}, e.errf("content() of non-slice")
